@@ -7,13 +7,15 @@
   coefficient is at least the code's 1e-8 threshold in size or exactly zero, given a square root
   on the non-negatives). Arcs: the algebraic part is proved (section Arc: every point of the
   denotation lies in the whole ellipse's box, the box is touched exactly where a coordinate's
-  derivative vanishes, and the angles `Arc.bbox` collects are those); that a *partial* arc's
-  coordinate is monotone between consecutive collected parameters is a trigonometric argument
-  not carried by a theorem, so partial arcs, and cubics with a leading coefficient strictly
-  inside the threshold, are decided by the correspondence stream and the dense-sampling +
-  analytic-extrema oracle, and are named partial in MANIFEST.
+  derivative vanishes, and the angles `Arc.bbox` collects are those), and so is the analytic part
+  over ℝ (section ArcReal: between parameters with no critical one strictly inside, a coordinate
+  stays between its end values). That the `k`-shifted candidates converted by `angle_inv`
+  enumerate every critical parameter inside a partial sweep is not carried by a theorem, so that,
+  and cubics with a leading coefficient strictly inside the threshold, are decided by the
+  correspondence stream and the dense-sampling + analytic-extrema oracle (partial in MANIFEST).
 -/
 import SvgVerif.Model.BBox
+import SvgVerif.Proofs.ArcMono
 import Mathlib.Tactic.Ring
 import Mathlib.Tactic.NormNum
 import Mathlib.Tactic.FieldSimp
@@ -953,4 +955,41 @@ example : let a : ArcData ℚ := ⟨⟨0,0⟩, ⟨0,0⟩, ⟨1,2⟩, ⟨1 + 2 * 
   norm_num
 
 end Arc
+
+section ArcReal
+open Real
+
+/-- **C08 for arcs, analytic part**: between two parameters with no critical parameter of a
+    coordinate strictly inside, that coordinate of the arc's denotation stays between its values
+    at the two parameters (over ℝ, with the real cosine and sine). With `C08_arc_critical_touches`
+    and `C08_arc_candidate_angles` this is why the box of a partial arc is the min/max over its
+    endpoints and the collected critical parameters inside the sweep. -/
+theorem C08_arc_between_candidates (a : ArcData ℝ) (s u t : ℝ) (hs : s ≤ t) (hu : t ≤ u) :
+    ((∀ x, s < x → x < u → denDx a (cos x) (sin x) ≠ 0) →
+      min (a.den (cos s) (sin s)).x (a.den (cos u) (sin u)).x ≤ (a.den (cos t) (sin t)).x ∧
+      (a.den (cos t) (sin t)).x ≤ max (a.den (cos s) (sin s)).x (a.den (cos u) (sin u)).x) ∧
+    ((∀ x, s < x → x < u → denDy a (cos x) (sin x) ≠ 0) →
+      min (a.den (cos s) (sin s)).y (a.den (cos u) (sin u)).y ≤ (a.den (cos t) (sin t)).y ∧
+      (a.den (cos t) (sin t)).y ≤ max (a.den (cos s) (sin s)).y (a.den (cos u) (sin u)).y) := by
+  constructor
+  · intro hne
+    have h := ArcMono.between (a.prx.x - a.center.x) (a.pry.x - a.center.x) s u t hs hu
+      (by intro x h1 h2; have := hne x h1 h2; simpa [denDx, ArcMono.g] using this)
+    simp only [ArcMono.f] at h
+    simp only [ArcData.den]
+    obtain ⟨h1, h2⟩ := h
+    constructor
+    · rw [add_assoc, add_assoc, add_assoc, min_add_add_left]; linarith
+    · rw [add_assoc, add_assoc, add_assoc, max_add_add_left]; linarith
+  · intro hne
+    have h := ArcMono.between (a.prx.y - a.center.y) (a.pry.y - a.center.y) s u t hs hu
+      (by intro x h1 h2; have := hne x h1 h2; simpa [denDy, ArcMono.g] using this)
+    simp only [ArcMono.f] at h
+    simp only [ArcData.den]
+    obtain ⟨h1, h2⟩ := h
+    constructor
+    · rw [add_assoc, add_assoc, add_assoc, min_add_add_left]; linarith
+    · rw [add_assoc, add_assoc, add_assoc, max_add_add_left]; linarith
+
+end ArcReal
 end Svg.C08
